@@ -9,7 +9,8 @@ SPECIAL_A = [[list(b'BLK? #15ab'), []],            # announces a 5-byte block, i
              [list(b'SYST:SUB:A;B?;ECHO @\n')],    # fails midway after relative headers
              [list(b'ECHO? 1,2,3\n')],             # parameters left unread
              [list(b'ECHO?'), []],                 # incomplete unit, flushed
-             [list(b'SENS:VOLT:AC:R\n')]]         # runs the second of two overlapping table entries
+             [list(b'SENS:VOLT:AC:R\n')],         # runs the second of two overlapping table entries
+             [list(b'NOPE\n')], [list(b'ECHO\n')]] # leave an error behind (undefined header, missing parameter)
 
 def run(pid, tier):
     rep = lib.Report('C09', tier)
@@ -23,8 +24,8 @@ def run(pid, tier):
     base = pool[0]
     na, nb = (60, 45) if tier == 'quick' else (400, 300)
     As = [[m] for m in rng.sample(msgs, min(na, len(msgs)))] + SPECIAL_A
-    rel = [m for m in msgs if bytes(m).startswith((b'B?', b'ECHO? 2', b'PART?', b'TXT?', b'NONE?', b'SENS'))]
-    Bs = rng.sample(msgs, min(nb, len(msgs))) + [m for m in rel if bytes(m).startswith(b'SENS')][:6] + rel[:18]
+    rel = [m for m in msgs if bytes(m).startswith((b'B?', b'ECHO? 2', b'PART?', b'TXT?', b'NONE?', b'SENS', b'NOCB'))]
+    Bs = rng.sample(msgs, min(nb, len(msgs))) + [m for m in rel if bytes(m).startswith((b'SENS', b'NOCB'))][:12] + rel[:18]
     scen, refidx = [], []
     alone = {}
     for b in Bs:
